@@ -63,7 +63,7 @@ X_UAMB = '-U on an option whose yield flag was toggled (undefined)'
 X_WIPE = '--wipe while a recorded -D value is unknown/invalid for the current declarations (undefined: literal replay must fail)'
 X_PAIR = 'structural edit (add/remove) of a member of a yielding pair (undefined when the pairing changes)'
 X_STATE = 'op not applicable in this build-dir state'
-SHRINK_RUNS = 80      # extra in-process history runs a shard may spend on shrinking its (at most 3) failure buckets
+SHRINK_RUNS = 40      # extra in-process history runs a shard may spend on shrinking its (at most 2) failure buckets
 
 
 # ---------------------------------------------------------------------------
@@ -1026,51 +1026,49 @@ def _classes(out: Outcome) -> str:
 def _campaign_shard(shard: T.Tuple[int, int, str], ev: Evidence, fails: T.List[Failure]) -> None:
     seed, n, scratch = shard
     root = os.path.join(scratch, f'w{seed}')
-    confirmed: T.Dict[str, Failure] = {}
-    rejected: T.Set[str] = set()
+    first_seen: T.Dict[str, Failure] = {}
+    cache: T.Dict[bytes, T.Optional[Failure]] = {}
     counter = [0]
 
     def check(case: dict) -> T.Optional[Failure]:
+        key = fp(case)
+        if key in cache:          # the shrink pass of campaign() regenerates the same cases first
+            return cache[key]
         counter[0] += 1
         if counter[0] > n + SHRINK_RUNS:
             return None       # shrink budget of this shard is spent: the shrinker sees "no failure" and stops
         out = run_history(case, _inproc_runner, os.path.join(root, 'c'))
-        cls = _classes(out)
-        ev.case(case, nontrivial=out.nontrivial, cls=cls, sample=list(out.trace))
-        for f in sorted(out.flags):
-            ev.event('op:' + f)
-        for w in out.excluded:
-            ev.exclude(w)
-        if out.lag:
-            ev.event('configure-lag (stale intro accepted)', out.lag)
-        ev.extra['commands'] = ev.extra.get('commands', 0) + out.commands
+        cache[key] = out.failure
+        if counter[0] <= n:
+            ev.case(case, nontrivial=out.nontrivial, cls=_classes(out), sample=list(out.trace))
+            for f in sorted(out.flags):
+                ev.event('op:' + f)
+            for w in out.excluded:
+                ev.exclude(w)
+            if out.lag:
+                ev.event('configure-lag (stale intro accepted)', out.lag)
+            ev.extra['commands'] = ev.extra.get('commands', 0) + out.commands
         f = out.failure
-        if f is None:
-            return None
-        if f.sig in confirmed:
-            return f
-        if f.sig in rejected:
-            return None
-        out2 = run_history(case, _sub_runner, os.path.join(root, 's'))
-        if out2.failure is not None:
-            confirmed[out2.failure.sig] = out2.failure
-            if out2.failure.sig == f.sig:
-                return f
-            return out2.failure
-        rejected.add(f.sig)
-        ev.inproc_only += 1
-        return None
+        if f is not None and f.sig not in first_seen:
+            first_seen[f.sig] = f
+        return f
 
     got: T.List[Failure] = []
     try:
-        campaign(_strategies(), check, n, seed, got, max_buckets=3)
-        # the shrunk representative was judged in-process: confirm it once more in fresh subprocesses
+        campaign(_strategies(), check, n, seed, got, max_buckets=2)
+        # everything so far was judged in-process: a bucket is reported only if its shrunk representative (or, failing
+        # that, the first case seen for it) fails the same way with one fresh subprocess per command
         for f in got:
-            out2 = run_history(f.case, _sub_runner, os.path.join(root, 's'))
-            if out2.failure is not None and out2.failure.sig == f.sig:
-                fails.append(out2.failure)
-            elif f.sig in confirmed:
-                fails.append(confirmed[f.sig])
+            confirmed = None
+            for cand in (f, first_seen.get(f.sig)):
+                if cand is None or (confirmed is None and cand is not f and cand.case == f.case):
+                    continue
+                out2 = run_history(cand.case, _sub_runner, os.path.join(root, 's'))
+                if out2.failure is not None:
+                    confirmed = out2.failure
+                    break
+            if confirmed is not None:
+                fails.append(confirmed)
             else:
                 ev.inproc_only += 1
     finally:
